@@ -1108,5 +1108,569 @@ example : dataWordCodes true (ihwActiveLanes ihw) [0, 0, 0, 0, 0, 0, 0, 0, 0, 0x
 example : UnknownId 0x13 := by unfold UnknownId; decide
 end ExDepth
 
+/-! ### state-dependent TDH rules behind a conforming prefix (E440 at any depth; E441..E445, E44 in the TDH position) -/
+
+/-- the state machine's successor is what `checkWord` stores; the packet's RDH is never changed by a word -/
+theorem checkWord_fsm_rdh (cfg : CheckCfg) (s : CdpSt) (w : Bytes) (s' : CdpSt) (ms : List Msg)
+    (h : checkWord cfg s w = .ok (s', ms)) : s'.fsm = (fsmAdvance s.fsm w).1 ∧ s'.rdh = s.rdh := by
+  rcases hadv : fsmAdvance s.fsm w with ⟨st', cls⟩
+  have hpd : ∀ (t t' : CdpSt) (m : List Msg), preData cfg t w = .ok (t', m) → t'.fsm = t.fsm ∧ t'.rdh = t.rdh := by
+    intro t t' m hp
+    unfold preData at hp
+    simp only at hp
+    repeat' split at hp
+    all_goals first
+      | cases hp; done
+      | (simp only [Except.ok.injEq, Prod.mk.injEq] at hp; obtain ⟨rfl, _⟩ := hp; exact ⟨rfl, rfl⟩)
+  have hpt : ∀ t : CdpSt, (preTdh cfg t w).1.fsm = t.fsm ∧ (preTdh cfg t w).1.rdh = t.rdh := by
+    intro t; unfold preTdh; simp only; split <;> exact ⟨rfl, rfl⟩
+  have hpf : ∀ (t t' : CdpSt) (m : List Msg), processFrame cfg t = .ok (t', m) → t'.fsm = t.fsm ∧ t'.rdh = t.rdh := by
+    intro t t' m hp
+    unfold processFrame at hp
+    simp only at hp
+    repeat' split at hp
+    all_goals first
+      | cases hp; done
+      | (simp only [Except.ok.injEq, Prod.mk.injEq] at hp; obtain ⟨rfl, _⟩ := hp; exact ⟨rfl, rfl⟩)
+  cases cls <;> simp only [checkWord, hadv] at h
+  case ihw => simp only [preIhw, Except.ok.injEq, Prod.mk.injEq] at h; obtain ⟨rfl, _⟩ := h; exact ⟨rfl, rfl⟩
+  case ihwCont => simp only [preIhw, Except.ok.injEq, Prod.mk.injEq] at h; obtain ⟨rfl, _⟩ := h; exact ⟨rfl, rfl⟩
+  case tdh => simp only [Except.ok.injEq, Prod.mk.injEq] at h; obtain ⟨rfl, _⟩ := h; have := hpt { s with wordCount := s.wordCount + 1, fsm := st' }; exact this
+  case tdhCont => simp only [Except.ok.injEq, Prod.mk.injEq] at h; obtain ⟨rfl, _⟩ := h; have := hpt { s with wordCount := s.wordCount + 1, fsm := st' }; exact this
+  case tdhAfterPacketDone => simp only [Except.ok.injEq, Prod.mk.injEq] at h; obtain ⟨rfl, _⟩ := h; have := hpt { s with wordCount := s.wordCount + 1, fsm := st' }; exact this
+  case errTdhOrDdw0 => simp only [Except.ok.injEq, Prod.mk.injEq] at h; obtain ⟨rfl, _⟩ := h; have := hpt { s with wordCount := s.wordCount + 1, fsm := st' }; exact this
+  case cdw => have := hpd _ _ _ h; exact this
+  case dataWord => have := hpd _ _ _ h; exact this
+  case ddw0 => simp only [preDdw0, Except.ok.injEq, Prod.mk.injEq] at h; obtain ⟨rfl, _⟩ := h; exact ⟨rfl, rfl⟩
+  case errDdw0OrTdhIhw => simp only [preDdw0, Except.ok.injEq, Prod.mk.injEq] at h; obtain ⟨rfl, _⟩ := h; exact ⟨rfl, rfl⟩
+  case errDwOrTdtCdw =>
+    split at h
+    · cases h
+    · rename_i t' m hp
+      simp only [Except.ok.injEq, Prod.mk.injEq] at h; obtain ⟨rfl, _⟩ := h; have := hpd _ _ _ hp; exact this
+  case tdt =>
+    unfold preTdt at h
+    simp only at h
+    split at h
+    · split at h
+      · cases h
+      · rename_i t' m hp
+        simp only [Except.ok.injEq, Prod.mk.injEq] at h; obtain ⟨rfl, _⟩ := h; have := hpf _ _ _ hp; exact this
+    · simp only [Except.ok.injEq, Prod.mk.injEq] at h; obtain ⟨rfl, _⟩ := h; exact ⟨rfl, rfl⟩
+
+/-- only a word taken as TDH changes the stored TDH -/
+theorem checkWord_tdh (cfg : CheckCfg) (s : CdpSt) (w : Bytes) (s' : CdpSt) (ms : List Msg)
+    (h : checkWord cfg s w = .ok (s', ms)) :
+    s'.tdh = if (fsmAdvance s.fsm w).2 ∈ [WordClass.tdh, .tdhCont, .tdhAfterPacketDone, .errTdhOrDdw0] then some w else s.tdh := by
+  rcases hadv : fsmAdvance s.fsm w with ⟨st', cls⟩
+  have hpd : ∀ (t t' : CdpSt) (m : List Msg), preData cfg t w = .ok (t', m) → t'.tdh = t.tdh := by
+    intro t t' m hp
+    unfold preData at hp
+    simp only at hp
+    repeat' split at hp
+    all_goals first
+      | cases hp; done
+      | (simp only [Except.ok.injEq, Prod.mk.injEq] at hp; obtain ⟨rfl, _⟩ := hp; rfl)
+  have hpt : ∀ t : CdpSt, (preTdh cfg t w).1.tdh = some w := by
+    intro t; unfold preTdh replaceTdh; simp only; split <;> rfl
+  have hpf : ∀ (t t' : CdpSt) (m : List Msg), processFrame cfg t = .ok (t', m) → t'.tdh = t.tdh := by
+    intro t t' m hp
+    unfold processFrame at hp
+    simp only at hp
+    repeat' split at hp
+    all_goals first
+      | cases hp; done
+      | (simp only [Except.ok.injEq, Prod.mk.injEq] at hp; obtain ⟨rfl, _⟩ := hp; rfl)
+  cases cls <;> simp only [checkWord, hadv] at h <;> simp only [List.mem_cons, List.not_mem_nil, reduceCtorEq, or_self, or_false, or_true, false_or, ↓reduceIte]
+  case ihw => simp only [preIhw, Except.ok.injEq, Prod.mk.injEq] at h; obtain ⟨rfl, _⟩ := h; rfl
+  case ihwCont => simp only [preIhw, Except.ok.injEq, Prod.mk.injEq] at h; obtain ⟨rfl, _⟩ := h; rfl
+  case tdh => simp only [Except.ok.injEq, Prod.mk.injEq] at h; obtain ⟨rfl, _⟩ := h; exact hpt _
+  case tdhCont => simp only [Except.ok.injEq, Prod.mk.injEq] at h; obtain ⟨rfl, _⟩ := h; exact hpt _
+  case tdhAfterPacketDone => simp only [Except.ok.injEq, Prod.mk.injEq] at h; obtain ⟨rfl, _⟩ := h; exact hpt _
+  case errTdhOrDdw0 => simp only [Except.ok.injEq, Prod.mk.injEq] at h; obtain ⟨rfl, _⟩ := h; exact hpt _
+  case cdw => have := hpd _ _ _ h; exact this
+  case dataWord => have := hpd _ _ _ h; exact this
+  case ddw0 => simp only [preDdw0, Except.ok.injEq, Prod.mk.injEq] at h; obtain ⟨rfl, _⟩ := h; rfl
+  case errDdw0OrTdhIhw => simp only [preDdw0, Except.ok.injEq, Prod.mk.injEq] at h; obtain ⟨rfl, _⟩ := h; rfl
+  case errDwOrTdtCdw =>
+    split at h
+    · cases h
+    · rename_i t' m hp
+      simp only [Except.ok.injEq, Prod.mk.injEq] at h; obtain ⟨rfl, _⟩ := h; have := hpd _ _ _ hp; exact this
+  case tdt =>
+    unfold preTdt at h
+    simp only at h
+    split at h
+    · split at h
+      · cases h
+      · rename_i t' m hp
+        simp only [Except.ok.injEq, Prod.mk.injEq] at h; obtain ⟨rfl, _⟩ := h; have := hpf _ _ _ hp; exact this
+    · simp only [Except.ok.injEq, Prod.mk.injEq] at h; obtain ⟨rfl, _⟩ := h; rfl
+
+
+/-- common skeleton of the any-depth theorems: the state `sK` in which the word at index
+    `pre.length` is examined is the same for the conforming packet and for the altered one; the
+    original word is processed there without a message; the altered word's messages are part of
+    the run's messages and sit at `packet + 64 + index × slot` -/
+theorem depth_setup (cfg : CheckCfg) (hits : cfg.itsChecks = true) (hst : cfg.stave = false)
+    (htp : cfg.triggerPeriod = none) (hver : cfg.customRdhVersion = none)
+    (id0 : Nat) (xs : List PktSpec) (x0 : PktSpec) (done' : List Rdh) (st' : LSt)
+    (hc : ConformingLinkTo cfg id0 [] {} (xs ++ [x0]) done' st')
+    (pre : List Bytes) (o : Bytes) (post : List Bytes) (hw0 : x0.pl.words = pre ++ o :: post)
+    (p : Packet) (hoff : p.offset = x0.offset) (hrdh : p.rdh = decodeRdh x0.hdr)
+    (w : Bytes) (post' : List Bytes)
+    (hne : p.payload.isEmpty = false) (hcut : cutPayload p.payload = some (pre ++ w :: post'))
+    (sf : LinkSt) (ms : List Msg)
+    (h : linkRun cfg (LinkSt.init cfg) (xs.map PktSpec.packet ++ [p]) = .ok (sf, ms)) :
+    ∃ (c0 : CdpSt) (sK sW sW' : CdpSt) (mW' : List Msg),
+      checkWords cfg (startCdp c0 p.offset p.rdh) pre = .ok (sK, []) ∧
+      checkWord cfg sK o = .ok (sW, []) ∧ checkWord cfg sK w = .ok (sW', mW') ∧ (∀ m ∈ mW', m ∈ ms) ∧
+      o.length = 10 ∧ (∀ a ∈ pre, a.length = 10) ∧
+      (stepped sK w).wordPos = p.offset + 64 + pre.length * C07.slotOf p.rdh ∧
+      (c0.fsm = .cIhwByTdtFalse → ∃ oT, c0.tdh = some oT) := by
+  obtain ⟨d1, g1, hcx, hc0⟩ := conformingLinkTo_append cfg id0 xs [x0] [] {} done' st' hc
+  obtain ⟨s1, hrun, hinv, hrel⟩ := conforming_its_run_to cfg hits hst htp id0 xs [] (LinkSt.init cfg) {} d1 g1
+    ⟨by simp [LinkSt.init, hver], fun _ => C10.init_inv⟩ ⟨Or.inl rfl, fun _ => rfl⟩ hcx
+  obtain ⟨h1, h2, h3, h4, h5, h6, _, g2, h8, _⟩ := hc0
+  obtain ⟨s2, hstep0, _, _⟩ := conforming_its_step cfg hits hst htp id0 d1 s1 g1 g2 hinv hrel x0 h1 h2 h3 h4 h5 h6 h8
+  have hwl := payload_words cfg.running _ g1 g2 x0.pl h8
+  have hcut0 : cutPayload x0.packet.payload = some (pre ++ o :: post) := by
+    have := cut_payload cfg.running _ g1 g2 x0.pl h8 x0.fmt0 x0.pad h6
+    rw [hw0] at this
+    simpa [PktSpec.packet, PktSpec.payloadBytes, hw0] using this
+  have holen : o.length = 10 := (hwl o (by simp [hw0])).1
+  have hprelen : ∀ a ∈ pre, a.length = 10 := fun a ha => (hwl a (by simp [hw0, ha])).1
+  have hne0 : x0.packet.payload.isEmpty = false := by
+    cases hpre : pre with
+    | nil => exact enc_nonempty x0 o post (by simp [hw0, hpre]) holen
+    | cons a as => exact enc_nonempty x0 a (as ++ o :: post) (by simp [hw0, hpre]) (hwl a (by simp [hw0, hpre])).1
+  obtain ⟨sB, mB, hB, hsubB⟩ := linkStep_words cfg hits hst s1 x0.packet _ hne0 hcut0 s2 [] hstep0
+  have hmB : mB = [] := by
+    cases mB with
+    | nil => rfl
+    | cons m _ => exact absurd (hsubB m (by simp)) (by simp)
+  subst hmB
+  obtain ⟨sK, mK, sW, mW, mR, hK, hO, _, hnil⟩ := checkWords_split cfg pre o post _ sB [] hB
+  obtain ⟨hmK, hmWR⟩ := List.append_eq_nil_iff.mp hnil.symm
+  obtain ⟨hmW, _⟩ := List.append_eq_nil_iff.mp hmWR
+  subst hmK; subst hmW
+  rw [linkRun_snoc cfg _ p _ s1 [] hrun] at h
+  cases hstep : linkStep cfg s1 p with
+  | error e => simp [hstep] at h
+  | ok r2 =>
+    obtain ⟨s2', m2⟩ := r2
+    simp only [hstep, List.nil_append, Except.ok.injEq, Prod.mk.injEq] at h
+    obtain ⟨_, rfl⟩ := h
+    obtain ⟨sB', mB', hB', hsub⟩ := linkStep_words cfg hits hst s1 p _ hne hcut s2' m2 hstep
+    obtain ⟨sK', mK', sW', mW', mR', hK', hW', _, hms⟩ := checkWords_split cfg pre w post' _ sB' mB' hB'
+    have hstart : startCdp s1.cdp p.offset p.rdh = startCdp s1.cdp x0.packet.offset x0.packet.rdh := by
+      simp [PktSpec.packet, hoff, hrdh]
+    rw [hstart, hK] at hK'
+    simp only [Except.ok.injEq, Prod.mk.injEq] at hK'
+    obtain ⟨rfl, _⟩ := hK'
+    obtain ⟨t1, t2, t3⟩ := checkWords_tracker cfg pre _ sK [] hK
+    refine ⟨s1.cdp, sK, sW, sW', mW', by rw [hstart]; exact hK, hO, hW', ?_, holen, hprelen, ?_, ?_⟩
+    · intro m hm; exact hsub m (by rw [hms]; simp [hm])
+    · simp only [stepped, CdpSt.wordPos, t1, t2, t3, startCdp, C07.slotOf, PktSpec.packet, hoff, hrdh]
+      simp
+    · intro hf
+      have hfsm := hrel.fsm
+      cases hbw : g1.bw with
+      | fresh => rw [hbw] at hfsm; rcases hfsm with h | h <;> rw [h] at hf <;> cases hf
+      | closed => rw [hbw] at hfsm; rcases hfsm with h | h <;> rw [h] at hf <;> cases hf
+      | open_ oT => rw [hbw] at hfsm; exact ⟨oT, hfsm.2⟩
+
+
+theorem checkWords_rdh (cfg : CheckCfg) (ws : List Bytes) : ∀ (s s' : CdpSt) (ms : List Msg),
+    checkWords cfg s ws = .ok (s', ms) → s'.rdh = s.rdh := by
+  induction ws with
+  | nil => intro s s' ms h; simp only [checkWords, Except.ok.injEq, Prod.mk.injEq] at h; obtain ⟨rfl, _⟩ := h; rfl
+  | cons w ws ih =>
+    intro s s' ms h
+    simp only [checkWords] at h
+    cases h1 : checkWord cfg s w with
+    | error e => simp [h1] at h
+    | ok r1 =>
+      obtain ⟨s1, m1⟩ := r1
+      simp only [h1] at h
+      cases h2 : checkWords cfg s1 ws with
+      | error e => simp [h2] at h
+      | ok r2 =>
+        obtain ⟨s2, m2⟩ := r2
+        simp only [h2, Except.ok.injEq, Prod.mk.injEq] at h
+        obtain ⟨rfl, _⟩ := h
+        rw [ih s1 s2 m2 h2, (checkWord_fsm_rdh cfg s w s1 m1 h1).2]
+
+/-- the TDH a later TDH of the payload is compared with: the last word before it that carries the
+    TDH identifier, else the link's stored TDH (the open packet's TDH on a continuation page) -/
+def governingTdh (init : Option Bytes) (pre : List Bytes) : Option Bytes :=
+  pre.foldl (fun acc w => if wordId w = ID_TDH then some w else acc) init
+
+theorem quiet_tdh_class_iff (cfg : CheckCfg) (s : CdpSt) (o : Bytes) (hlen : o.length = 10) (s' : CdpSt)
+    (h : checkWord cfg s o = .ok (s', [])) :
+    (fsmAdvance s.fsm o).2 ∈ [WordClass.tdh, .tdhCont, .tdhAfterPacketDone, .errTdhOrDdw0] ↔ wordId o = ID_TDH := by
+  have hq := quiet_class cfg s o hlen s' h
+  constructor
+  · intro hc
+    simp only [List.mem_cons, List.not_mem_nil, or_false] at hc
+    rcases hc with hc | hc | hc | hc <;> rw [hc] at hq
+    · exact tdhSane_id o hq
+    · exact tdhSane_id o hq
+    · exact tdhSane_id o hq
+    · exact hq.elim
+  · intro hid
+    have := quiet_status_class cfg s o hlen s' h .tdh hid
+    simp only [StatusKind.classes, List.mem_cons, List.not_mem_nil, or_false] at this
+    simp only [List.mem_cons, List.not_mem_nil, or_false]
+    rcases this with h1 | h1 | h1 <;> simp [h1]
+
+theorem quiet_governing_tdh (cfg : CheckCfg) (pre : List Bytes) : ∀ (s sK : CdpSt),
+    (∀ w ∈ pre, w.length = 10) → checkWords cfg s pre = .ok (sK, []) → sK.tdh = governingTdh s.tdh pre := by
+  induction pre with
+  | nil =>
+    intro s sK _ h
+    simp only [checkWords, Except.ok.injEq, Prod.mk.injEq] at h
+    obtain ⟨rfl, _⟩ := h
+    rfl
+  | cons w ws ih =>
+    intro s sK hl h
+    simp only [checkWords] at h
+    cases h1 : checkWord cfg s w with
+    | error e => simp [h1] at h
+    | ok r1 =>
+      obtain ⟨s1, m1⟩ := r1
+      simp only [h1] at h
+      cases h2 : checkWords cfg s1 ws with
+      | error e => simp [h2] at h
+      | ok r2 =>
+        obtain ⟨s2, m2⟩ := r2
+        simp only [h2, Except.ok.injEq, Prod.mk.injEq] at h
+        obtain ⟨rfl, hm⟩ := h
+        obtain ⟨hm1, hm2⟩ := List.append_eq_nil_iff.mp hm
+        subst hm1; subst hm2
+        have hw := checkWord_tdh cfg s w s1 [] h1
+        have hiff := quiet_tdh_class_iff cfg s w (hl w (by simp)) s1 h1
+        rw [ih s1 s2 (fun x hx => hl x (by simp [hx])) h2, hw]
+        simp only [governingTdh, List.foldl_cons]
+        by_cases hid : wordId w = ID_TDH
+        · simp [hid, hiff.mpr hid]
+        · have : ¬ ((fsmAdvance s.fsm w).2 ∈ [WordClass.tdh, .tdhCont, .tdhAfterPacketDone, .errTdhOrDdw0]) := fun hc => hid (hiff.mp hc)
+          simp [hid, this]
+
+/-! in-state rules (valid in every validator state) -/
+
+theorem mkErr_preTdh (cfg : CheckCfg) (t : CdpSt) (w : Bytes) (c : String) :
+    mkErr (preTdh cfg t w).1 c w = mkErr t c w := by
+  unfold preTdh; simp only; split <;> rfl
+
+theorem tdh_first_copies (cfg : CheckCfg) (hrun : cfg.running = true) (s : CdpSt) (w : Bytes)
+    (hcls : (fsmAdvance s.fsm w).2 = .tdh) (hpage : s.rdh.pagesCounter = 0)
+    (htrig : tdhInternal w = 1 ∨ s.rdh.isPht = true)
+    (s' : CdpSt) (ms : List Msg) (h : checkWord cfg s w = .ok (s', ms)) :
+    (tdhBc w ≠ s.rdh.bc → mkErr (stepped s w) "E445" w ∈ ms) ∧
+    (s.rdh.triggerType % 4096 ≠ tdhTriggerType w → mkErr (stepped s w) "E44" w ∈ ms) := by
+  rcases hadv : fsmAdvance s.fsm w with ⟨st', cls⟩
+  rw [hadv] at hcls; subst hcls
+  simp only [stepped, hadv]
+  simp only [checkWord, hadv, hrun, ↓reduceIte, Except.ok.injEq, Prod.mk.injEq] at h
+  obtain ⟨_, rfl⟩ := h
+  have hr : (preTdh cfg { s with wordCount := s.wordCount + 1, fsm := st' } w).1.rdh = s.rdh := by
+    unfold preTdh; simp only; split <;> rfl
+  have hcond : ((s.rdh.pagesCounter == 0) && (tdhInternal w == 1 || s.rdh.isPht)) = true := by
+    rcases htrig with ht | ht <;> simp [hpage, ht]
+  constructor
+  · intro hb
+    have : (tdhBc w != s.rdh.bc) = true := by simp [hb]
+    simp [tdhNoContinuationChecks, hr, hcond, this, mkErr_preTdh]
+  · intro ht
+    have : (s.rdh.triggerType % 4096 != tdhTriggerType w) = true := by simp [ht]
+    simp [tdhNoContinuationChecks, hr, hcond, this, mkErr_preTdh]
+
+theorem tdh_bc_decreasing (cfg : CheckCfg) (hrun : cfg.running = true) (s : CdpSt) (w prev : Bytes)
+    (hcls : (fsmAdvance s.fsm w).2 = .tdhAfterPacketDone) (hprev : s.tdh = some prev) (hbc : tdhBc w < tdhBc prev)
+    (s' : CdpSt) (ms : List Msg) (h : checkWord cfg s w = .ok (s', ms)) :
+    mkErr (stepped s w) "E440" w ∈ ms := by
+  rcases hadv : fsmAdvance s.fsm w with ⟨st', cls⟩
+  rw [hadv] at hcls; subst hcls
+  simp only [stepped, hadv]
+  simp only [checkWord, hadv, hrun, Bool.not_true, Bool.false_eq_true, ↓reduceIte, Except.ok.injEq, Prod.mk.injEq] at h
+  obtain ⟨_, rfl⟩ := h
+  have hp : (preTdh cfg { s with wordCount := s.wordCount + 1, fsm := st' } w).1.prevTdh = some prev := by
+    unfold preTdh replaceTdh; simp only; split <;> exact hprev
+  simp [hp, hbc, mkErr_preTdh]
+
+theorem tdh_cont_copies (cfg : CheckCfg) (hrun : cfg.running = true) (s : CdpSt) (w prev : Bytes)
+    (hcls : (fsmAdvance s.fsm w).2 = .tdhCont) (hprev : s.tdh = some prev)
+    (s' : CdpSt) (ms : List Msg) (h : checkWord cfg s w = .ok (s', ms)) :
+    (tdhBc w ≠ tdhBc prev → mkErr (stepped s w) "E441" w ∈ ms) ∧
+    (tdhOrbit w ≠ tdhOrbit prev → mkErr (stepped s w) "E442" w ∈ ms) ∧
+    (tdhTriggerType w ≠ tdhTriggerType prev → mkErr (stepped s w) "E443" w ∈ ms) := by
+  rcases hadv : fsmAdvance s.fsm w with ⟨st', cls⟩
+  rw [hadv] at hcls; subst hcls
+  simp only [stepped, hadv]
+  simp only [checkWord, hadv, hrun, ↓reduceIte, Except.ok.injEq, Prod.mk.injEq] at h
+  obtain ⟨_, rfl⟩ := h
+  have hp : (preTdh cfg { s with wordCount := s.wordCount + 1, fsm := st' } w).1.prevTdh = some prev := by
+    unfold preTdh replaceTdh; simp only; split <;> exact hprev
+  refine ⟨?_, ?_, ?_⟩
+  · intro hb
+    have : (tdhBc w != tdhBc prev) = true := by simp [hb]
+    simp [tdhContinuationChecks, hp, this, mkErr_preTdh]
+  · intro hb
+    have : (tdhOrbit w != tdhOrbit prev) = true := by simp [hb]
+    simp [tdhContinuationChecks, hp, this, mkErr_preTdh]
+  · intro hb
+    have : (tdhTriggerType w != tdhTriggerType prev) = true := by simp [hb]
+    simp [tdhContinuationChecks, hp, this, mkErr_preTdh]
+
+
+/-! state-machine facts used to place the TDH classes -/
+theorem class_tdh_state (st : FsmSt) (id : Nat) (nd pd : Bool) :
+    ((fsmStep st id nd pd).2 = .tdh → st = .tdhByWasIhw) ∧ ((fsmStep st id nd pd).2 = .tdhCont → st = .cTdhByNext) := by
+  cases st <;> constructor <;> intro h <;> (try rfl) <;> simp only [fsmStep] at h <;> (repeat' split at h) <;> simp_all
+
+theorem next_after_tdt_tdh (st : FsmSt) (id : Nat) (nd pd : Bool)
+    (h : (fsmStep st id nd pd).2 ∈ [WordClass.tdt, .tdh, .tdhCont, .tdhAfterPacketDone]) :
+    (fsmStep st id nd pd).1 ≠ .tdhByWasIhw ∧ (fsmStep st id nd pd).1 ≠ .cTdhByNext := by
+  cases st <;> simp only [fsmStep] at h ⊢ <;> (repeat' split) <;> simp_all
+
+theorem next_after_ihw (st : FsmSt) (id : Nat) (nd pd : Bool) :
+    ((fsmStep st id nd pd).2 = .ihw → (fsmStep st id nd pd).1 = .tdhByWasIhw) ∧
+    ((fsmStep st id nd pd).2 = .ihwCont → (fsmStep st id nd pd).1 = .cTdhByNext ∧ st = .cIhwByTdtFalse) := by
+  cases st <;> simp only [fsmStep] <;> constructor <;> intro h <;> first | (simp; done) | (revert h; (repeat' split) <;> simp)
+
+theorem tdh_id_class_in (st : FsmSt) (nd pd : Bool) :
+    (st = .tdhByWasIhw → (fsmStep st ID_TDH nd pd).2 = .tdh) ∧ (st = .cTdhByNext → (fsmStep st ID_TDH nd pd).2 = .tdhCont) := by
+  constructor <;> intro h <;> subst h <;> simp [fsmStep]
+
+
+/-- **bunch-counter order at any depth** (`check all`): in a conforming packet take a TDH `o` that
+    is not the first word after the IHW (the word before it is a TDT or a TDH: a closed packet or a
+    trigger without data precedes it). Replace it by a TDH `w` (same identifier and flag bits) whose
+    bunch counter is *below* that of the previous TDH of the payload: [E440] at the word's offset. -/
+theorem tdh_bc_order_at_any_depth (cfg : CheckCfg) (hits : cfg.itsChecks = true) (hst : cfg.stave = false)
+    (htp : cfg.triggerPeriod = none) (hver : cfg.customRdhVersion = none) (hrun : cfg.running = true)
+    (id0 : Nat) (xs : List PktSpec) (x0 : PktSpec) (done' : List Rdh) (st' : LSt)
+    (hc : ConformingLinkTo cfg id0 [] {} (xs ++ [x0]) done' st')
+    (pre0 : List Bytes) (l o : Bytes) (post : List Bytes) (hw0 : x0.pl.words = (pre0 ++ [l]) ++ o :: post)
+    (hl : wordId l = ID_TDT ∨ wordId l = ID_TDH) (hk : wordId o = ID_TDH)
+    (p : Packet) (hoff : p.offset = x0.offset) (hrdh : p.rdh = decodeRdh x0.hdr)
+    (w : Bytes) (post' : List Bytes)
+    (hne : p.payload.isEmpty = false) (hcut : cutPayload p.payload = some ((pre0 ++ [l]) ++ w :: post'))
+    (hid : wordId w = wordId o) (hnd : tdhNoData w = tdhNoData o) (hpd : tdtPacketDone w = tdtPacketDone o)
+    (prev : Bytes) (hprev : governingTdh none (pre0 ++ [l]) = some prev) (hbc : tdhBc w < tdhBc prev)
+    (sf : LinkSt) (ms : List Msg)
+    (h : linkRun cfg (LinkSt.init cfg) (xs.map PktSpec.packet ++ [p]) = .ok (sf, ms)) :
+    Msg.error { offset := p.offset + 64 + (pre0.length + 1) * C07.slotOf p.rdh, code := "E440", word := some w } ∈ ms := by
+  obtain ⟨c0, sK, sW, sW', mW', hK, hO, hW', hsub, holen, hprelen, hpos, _⟩ :=
+    depth_setup cfg hits hst htp hver id0 xs x0 done' st' hc (pre0 ++ [l]) o post hw0 p hoff hrdh w post' hne hcut sf ms h
+  -- the state after the word before `o`
+  rw [checkWords_append] at hK
+  cases hA : checkWords cfg (startCdp c0 p.offset p.rdh) pre0 with
+  | error e => simp [hA] at hK
+  | ok rA =>
+    obtain ⟨sA, mA⟩ := rA
+    simp only [hA, checkWords] at hK
+    cases hL : checkWord cfg sA l with
+    | error e => simp [hL] at hK
+    | ok rL =>
+      obtain ⟨sL, mL⟩ := rL
+      simp only [hL, Except.ok.injEq, Prod.mk.injEq] at hK
+      obtain ⟨rfl, hm⟩ := hK
+      obtain ⟨hmA, hmL⟩ := List.append_eq_nil_iff.mp hm
+      simp only [List.append_nil] at hmL
+      subst hmA; subst hmL
+      have hllen : l.length = 10 := hprelen l (by simp)
+      have hlcls : (fsmAdvance sA.fsm l).2 ∈ [WordClass.tdt, .tdh, .tdhCont, .tdhAfterPacketDone] := by
+        rcases hl with hl | hl
+        · have := quiet_status_class cfg sA l hllen sL hL .tdt hl
+          simp only [StatusKind.classes, List.mem_cons, List.not_mem_nil, or_false] at this
+          simp [this]
+        · have := quiet_status_class cfg sA l hllen sL hL .tdh hl
+          simp only [StatusKind.classes, List.mem_cons, List.not_mem_nil, or_false] at this
+          rcases this with h1 | h1 | h1 <;> simp [h1]
+      have hnext := next_after_tdt_tdh sA.fsm (wordId l) (tdhNoData l == 1) (tdtPacketDone l) hlcls
+      have hfsm : sL.fsm = (fsmAdvance sA.fsm l).1 := (checkWord_fsm_rdh cfg sA l sL [] hL).1
+      -- hence `o` (a quiet TDH) was taken as TDH-after-packet-done, and so is `w`
+      have hocls := quiet_status_class cfg sL o holen sW hO .tdh hk
+      simp only [StatusKind.classes, List.mem_cons, List.not_mem_nil, or_false] at hocls
+      have hcls0 : (fsmAdvance sL.fsm o).2 = .tdhAfterPacketDone := by
+        rcases hocls with h1 | h1 | h1
+        · have := (class_tdh_state sL.fsm _ _ _).1 h1; rw [hfsm] at this; exact absurd this hnext.1
+        · have := (class_tdh_state sL.fsm _ _ _).2 h1; rw [hfsm] at this; exact absurd this hnext.2
+        · exact h1
+      have hcls : (fsmAdvance sL.fsm w).2 = .tdhAfterPacketDone := by
+        rw [same_shape_same_class sL.fsm w o hid hnd hpd]; exact hcls0
+      have hK2 : checkWords cfg (startCdp c0 p.offset p.rdh) (pre0 ++ [l]) = .ok (sL, []) := by
+        rw [checkWords_append, hA]; simp [checkWords, hL]
+      have htdh : sL.tdh = some prev := by
+        have := quiet_governing_tdh cfg (pre0 ++ [l]) _ sL hprelen hK2
+        have hfold : ∀ (ls : List Bytes) (a : Option Bytes), governingTdh none ls = some prev → governingTdh a ls = some prev := by
+          intro ls
+          induction ls with
+          | nil => intro a h2; simp [governingTdh] at h2
+          | cons x ls ihl =>
+            intro a h2
+            simp only [governingTdh, List.foldl_cons] at h2 ⊢
+            by_cases hx : wordId x = ID_TDH
+            · simp only [hx, ↓reduceIte] at h2 ⊢; exact h2
+            · simp only [hx, ↓reduceIte] at h2 ⊢; exact ihl _ h2
+        rw [this]; exact hfold _ _ hprev
+      have hin := hsub _ (tdh_bc_decreasing cfg hrun sL w prev hcls htdh hbc sW' mW' hW')
+      have hlen' : (pre0 ++ [l]).length = pre0.length + 1 := by simp
+      rw [hlen'] at hpos
+      simpa [mkErr, hpos] using hin
+
+
+/-- the state in which the word after the page's IHW is examined -/
+theorem after_first_ihw (cfg : CheckCfg) (c0 : CdpSt) (off : Nat) (r : Rdh) (i : Bytes) (hi : wordId i = ID_IHW)
+    (hilen : i.length = 10) (sK : CdpSt) (hK : checkWords cfg (startCdp c0 off r) [i] = .ok (sK, [])) :
+    sK.rdh = r ∧ sK.tdh = c0.tdh ∧
+    (sK.fsm = .tdhByWasIhw ∨ (sK.fsm = .cTdhByNext ∧ c0.fsm = .cIhwByTdtFalse)) := by
+  simp only [checkWords] at hK
+  cases hI : checkWord cfg (startCdp c0 off r) i with
+  | error e => simp [hI] at hK
+  | ok rI =>
+    obtain ⟨sI, mI⟩ := rI
+    simp only [hI, List.append_nil, Except.ok.injEq, Prod.mk.injEq] at hK
+    obtain ⟨rfl, rfl⟩ := hK
+    obtain ⟨hf, hr⟩ := checkWord_fsm_rdh cfg _ i sI [] hI
+    have hcls := (quiet_ihw_class_iff cfg _ i hilen sI hI).mpr hi
+    have ht := checkWord_tdh cfg _ i sI [] hI
+    have hnot : ¬ ((fsmAdvance (startCdp c0 off r).fsm i).2 ∈ [WordClass.tdh, .tdhCont, .tdhAfterPacketDone, .errTdhOrDdw0]) := by
+      rcases hcls with h1 | h1 <;> simp [h1]
+    simp only [hnot, ↓reduceIte] at ht
+    refine ⟨by rw [hr]; rfl, by rw [ht]; rfl, ?_⟩
+    rcases hcls with h1 | h1
+    · left; rw [hf]; exact (next_after_ihw _ _ _ _).1 h1
+    · right; rw [hf]; exact (next_after_ihw _ _ _ _).2 h1
+
+/-- **first TDH of page 0: copies of the RDH** (`check all`): the TDH directly after the IHW that
+    opens a new packet (continuation bit 0) on page 0 of an internally or physics triggered HBF,
+    replaced by a TDH whose bunch counter / trigger bits differ from the RDH's: [E445] / [E44] -/
+theorem tdh_first_copies_after_conforming_prefix (cfg : CheckCfg) (hits : cfg.itsChecks = true) (hst : cfg.stave = false)
+    (htp : cfg.triggerPeriod = none) (hver : cfg.customRdhVersion = none) (hrun : cfg.running = true)
+    (id0 : Nat) (xs : List PktSpec) (x0 : PktSpec) (done' : List Rdh) (st' : LSt)
+    (hc : ConformingLinkTo cfg id0 [] {} (xs ++ [x0]) done' st')
+    (i o : Bytes) (post : List Bytes) (hw0 : x0.pl.words = [i] ++ o :: post)
+    (hi : wordId i = ID_IHW) (hk : wordId o = ID_TDH) (hoc : tdhContinuation o = 0)
+    (p : Packet) (hoff : p.offset = x0.offset) (hrdh : p.rdh = decodeRdh x0.hdr)
+    (w : Bytes) (post' : List Bytes)
+    (hne : p.payload.isEmpty = false) (hcut : cutPayload p.payload = some ([i] ++ w :: post'))
+    (hid : wordId w = wordId o) (hnd : tdhNoData w = tdhNoData o) (hpd : tdtPacketDone w = tdtPacketDone o)
+    (hpage : p.rdh.pagesCounter = 0) (htrig : tdhInternal w = 1 ∨ p.rdh.isPht = true)
+    (sf : LinkSt) (ms : List Msg)
+    (h : linkRun cfg (LinkSt.init cfg) (xs.map PktSpec.packet ++ [p]) = .ok (sf, ms)) :
+    let at1 := p.offset + 64 + C07.slotOf p.rdh
+    (tdhBc w ≠ p.rdh.bc → Msg.error { offset := at1, code := "E445", word := some w } ∈ ms) ∧
+    (p.rdh.triggerType % 4096 ≠ tdhTriggerType w → Msg.error { offset := at1, code := "E44", word := some w } ∈ ms) := by
+  obtain ⟨c0, sK, sW, sW', mW', hK, hO, hW', hsub, holen, hprelen, hpos, _⟩ :=
+    depth_setup cfg hits hst htp hver id0 xs x0 done' st' hc [i] o post hw0 p hoff hrdh w post' hne hcut sf ms h
+  obtain ⟨hr, _, hfsm⟩ := after_first_ihw cfg c0 p.offset p.rdh i hi (hprelen i (by simp)) sK hK
+  -- a quiet TDH with continuation 0 under the stateful checks is not a continuation TDH
+  have hcls0 : (fsmAdvance sK.fsm o).2 = .tdh := by
+    rcases hfsm with h1 | ⟨h1, _⟩
+    · have := (tdh_id_class_in sK.fsm (tdhNoData o == 1) (tdtPacketDone o)).1 h1
+      simpa [fsmAdvance, hk] using this
+    · have hc2 := (tdh_id_class_in sK.fsm (tdhNoData o == 1) (tdtPacketDone o)).2 h1
+      have hc3 : (fsmAdvance sK.fsm o).2 = .tdhCont := by simpa [fsmAdvance, hk] using hc2
+      have := tdh_continuation_rule cfg hrun sK o hc3 (by rw [hoc]; decide) sW [] hO
+      simp at this
+  have hcls : (fsmAdvance sK.fsm w).2 = .tdh := by rw [same_shape_same_class sK.fsm w o hid hnd hpd]; exact hcls0
+  obtain ⟨r1, r2⟩ := tdh_first_copies cfg hrun sK w hcls (by rw [hr]; exact hpage) (by rw [hr]; exact htrig) sW' mW' hW'
+  have hpos' : (stepped sK w).wordPos = p.offset + 64 + C07.slotOf p.rdh := by simpa using hpos
+  simp only
+  constructor
+  · intro hb
+    have := hsub _ (r1 (by rw [hr]; exact hb))
+    simpa [mkErr, hpos'] using this
+  · intro hb
+    have := hsub _ (r2 (by rw [hr]; exact hb))
+    simpa [mkErr, hpos'] using this
+
+/-- in-state: a continuation TDH processed without a message copies the open packet's TDH -/
+theorem cont_quiet_copies (cfg : CheckCfg) (hrun : cfg.running = true) (s : CdpSt) (o prev : Bytes)
+    (hcls : (fsmAdvance s.fsm o).2 = .tdhCont) (hprev : s.tdh = some prev) (s' : CdpSt)
+    (h : checkWord cfg s o = .ok (s', [])) :
+    tdhBc o = tdhBc prev ∧ tdhOrbit o = tdhOrbit prev ∧ tdhTriggerType o = tdhTriggerType prev := by
+  obtain ⟨r1, r2, r3⟩ := tdh_cont_copies cfg hrun s o prev hcls hprev s' [] h
+  refine ⟨?_, ?_, ?_⟩
+  · cases hd : decide (tdhBc o = tdhBc prev) with
+    | true => exact of_decide_eq_true hd
+    | false => have := r1 (of_decide_eq_false hd); simp at this
+  · cases hd : decide (tdhOrbit o = tdhOrbit prev) with
+    | true => exact of_decide_eq_true hd
+    | false => have := r2 (of_decide_eq_false hd); simp at this
+  · cases hd : decide (tdhTriggerType o = tdhTriggerType prev) with
+    | true => exact of_decide_eq_true hd
+    | false => have := r3 (of_decide_eq_false hd); simp at this
+
+/-- **continuation TDH: copies of the open packet's TDH** (`check all`): the TDH directly after
+    the IHW of a page that continues an open packet (continuation bit 1), replaced by a TDH whose
+    bunch counter / orbit / trigger bits differ from the conforming original — which carries those
+    of the packet's opening TDH — gives [E441] / [E442] / [E443] at its offset -/
+theorem tdh_cont_copies_after_conforming_prefix (cfg : CheckCfg) (hits : cfg.itsChecks = true) (hst : cfg.stave = false)
+    (htp : cfg.triggerPeriod = none) (hver : cfg.customRdhVersion = none) (hrun : cfg.running = true)
+    (id0 : Nat) (xs : List PktSpec) (x0 : PktSpec) (done' : List Rdh) (st' : LSt)
+    (hc : ConformingLinkTo cfg id0 [] {} (xs ++ [x0]) done' st')
+    (i o : Bytes) (post : List Bytes) (hw0 : x0.pl.words = [i] ++ o :: post)
+    (hi : wordId i = ID_IHW) (hk : wordId o = ID_TDH) (hoc : tdhContinuation o = 1)
+    (p : Packet) (hoff : p.offset = x0.offset) (hrdh : p.rdh = decodeRdh x0.hdr)
+    (w : Bytes) (post' : List Bytes)
+    (hne : p.payload.isEmpty = false) (hcut : cutPayload p.payload = some ([i] ++ w :: post'))
+    (hid : wordId w = wordId o) (hnd : tdhNoData w = tdhNoData o) (hpd : tdtPacketDone w = tdtPacketDone o)
+    (sf : LinkSt) (ms : List Msg)
+    (h : linkRun cfg (LinkSt.init cfg) (xs.map PktSpec.packet ++ [p]) = .ok (sf, ms)) :
+    let at1 := p.offset + 64 + C07.slotOf p.rdh
+    (tdhBc w ≠ tdhBc o → Msg.error { offset := at1, code := "E441", word := some w } ∈ ms) ∧
+    (tdhOrbit w ≠ tdhOrbit o → Msg.error { offset := at1, code := "E442", word := some w } ∈ ms) ∧
+    (tdhTriggerType w ≠ tdhTriggerType o → Msg.error { offset := at1, code := "E443", word := some w } ∈ ms) := by
+  obtain ⟨c0, sK, sW, sW', mW', hK, hO, hW', hsub, holen, hprelen, hpos, hopen⟩ :=
+    depth_setup cfg hits hst htp hver id0 xs x0 done' st' hc [i] o post hw0 p hoff hrdh w post' hne hcut sf ms h
+  obtain ⟨hr, htdh, hfsm⟩ := after_first_ihw cfg c0 p.offset p.rdh i hi (hprelen i (by simp)) sK hK
+  -- a quiet TDH with continuation 1 under the stateful checks is a continuation TDH
+  have hst2 : sK.fsm = .cTdhByNext ∧ c0.fsm = .cIhwByTdtFalse := by
+    rcases hfsm with h1 | h1
+    · have hc2 := (tdh_id_class_in sK.fsm (tdhNoData o == 1) (tdtPacketDone o)).1 h1
+      have hc3 : (fsmAdvance sK.fsm o).2 = .tdh := by simpa [fsmAdvance, hk] using hc2
+      have := (tdh_after_ihw_rules cfg hrun sK o hc3 sW [] hO).1 (by rw [hoc]; decide)
+      simp at this
+    · exact h1
+  have hcls0 : (fsmAdvance sK.fsm o).2 = .tdhCont := by
+    have := (tdh_id_class_in sK.fsm (tdhNoData o == 1) (tdtPacketDone o)).2 hst2.1
+    simpa [fsmAdvance, hk] using this
+  have hcls : (fsmAdvance sK.fsm w).2 = .tdhCont := by rw [same_shape_same_class sK.fsm w o hid hnd hpd]; exact hcls0
+  obtain ⟨oT, hoT⟩ := hopen hst2.2
+  have hprev : sK.tdh = some oT := by rw [htdh]; exact hoT
+  obtain ⟨q1, q2, q3⟩ := cont_quiet_copies cfg hrun sK o oT hcls0 hprev sW hO
+  obtain ⟨r1, r2, r3⟩ := tdh_cont_copies cfg hrun sK w oT hcls hprev sW' mW' hW'
+  have hpos' : (stepped sK w).wordPos = p.offset + 64 + C07.slotOf p.rdh := by simpa using hpos
+  simp only
+  refine ⟨?_, ?_, ?_⟩
+  · intro hb
+    have := hsub _ (r1 (by rw [← q1]; exact hb))
+    simpa [mkErr, hpos'] using this
+  · intro hb
+    have := hsub _ (r2 (by rw [← q2]; exact hb))
+    simpa [mkErr, hpos'] using this
+  · intro hb
+    have := hsub _ (r3 (by rw [← q3]; exact hb))
+    simpa [mkErr, hpos'] using this
+
+
+namespace ExDepth
+open C01.Ex
+/-- in `page0` the no-data TDH (BC 9) at word index 6 follows the TDT that closes the first packet, whose TDH has BC 5 -/
+example : page0.words = ([ihw, tdh, cdw, data, data] ++ [tdtDone]) ++ C01.Ex.tdhNoData :: [tdhOpen, data, tdtOpen] := by decide
+example : governingTdh none ([ihw, tdh, cdw, data, data] ++ [tdtDone]) = some tdh := by decide
+example : wordId tdtDone = ID_TDT ∧ wordId C01.Ex.tdhNoData = ID_TDH ∧ tdhBc tdh = 5 ∧ tdhBc C01.Ex.tdhNoData = 9 := by decide
+/-- the same TDH with BC 3 (< 5): same identifier and flags -/
+def lowBcTdh : Bytes := [0x10, 0x20, 0x03, 0x00, 7, 0, 0, 0, 0, 0xE8]
+example : wordId lowBcTdh = wordId C01.Ex.tdhNoData ∧ tdhNoData lowBcTdh = tdhNoData C01.Ex.tdhNoData ∧
+    tdtPacketDone lowBcTdh = tdtPacketDone C01.Ex.tdhNoData ∧ tdhBc lowBcTdh < tdhBc tdh := by decide
+/-- `page1` starts with IHW + the continuation TDH of the open packet -/
+example : page1.words = [ihw] ++ tdhCont :: [data, data, tdtDone, tdhOpen, tdtDone] ∧ tdhContinuation tdhCont = 1 ∧ tdhContinuation tdh = 0 := by decide
+end ExDepth
+
 end C02
 end FastPasta
